@@ -185,7 +185,7 @@ def encode_filters(filters, data):
         data = gflt.apply_nonlast(fid, props, data, True)
     return data
 
-def concretise_file(af, cat, rng=None, chunk_cache=None):
+def concretise_file(af, cat, rng=None, variant=0):
     """abstract file (XzFile.tla JSON) -> (bytes, fieldmap, outputs-by-block [(s, b) -> bytes])"""
     rng = rng or random.Random(1)
     bycat = {e['did']: e for e in cat}
@@ -224,7 +224,7 @@ def concretise_file(af, cat, rng=None, chunk_cache=None):
             hdr = gxz.build_block_header(dict(blk, header_size=None))
             real = len(hdr)
             if b['resv']:
-                blk['flags'] = hdr[1] | rng.choice([0x04, 0x08, 0x10, 0x20])
+                blk['flags'] = hdr[1] | [0x04, 0x08, 0x10, 0x20][(variant + bi) % 4]
             if not b['fits']:
                 # the first filter's Size of Properties points past the end of the header (CRC32 valid)
                 blk['filters'] = [dict(flt[0], props_size=100)] + flt[1:]
